@@ -582,6 +582,8 @@ impl WalkBuilder {
             ig_root: ig_root.clone(),
             ig: ig_root.clone(),
             max_filesize: self.max_filesize,
+            same_file_system: self.same_file_system,
+            root_device: None,
             skip: self.skip.clone(),
             filter: self.filter.clone(),
         }
@@ -915,6 +917,10 @@ pub struct Walk {
     ig_root: Ignore,
     ig: Ignore,
     max_filesize: Option<u64>,
+    same_file_system: bool,
+    /// The device number of the current root path. Only set when
+    /// `same_file_system` is enabled.
+    root_device: Option<u64>,
     skip: Option<Arc<Handle>>,
     filter: Option<Filter>,
 }
@@ -966,6 +972,20 @@ impl Walk {
         }
         Ok(false)
     }
+
+    /// Returns true if the underlying walkdir iterator has descended into
+    /// the given directory entry, which it has just yielded.
+    ///
+    /// When `same_file_system` is enabled, walkdir yields a directory on
+    /// another file system but does not descend into it.
+    fn is_descended(&self, ent: &DirEntry) -> bool {
+        match self.root_device {
+            Some(root_device) if ent.depth() > 0 => {
+                is_same_file_system(root_device, ent.path()).unwrap_or(true)
+            }
+            _ => true,
+        }
+    }
 }
 
 impl Iterator for Walk {
@@ -984,6 +1004,11 @@ impl Iterator for Walk {
                         }
                         Some((path, Some(it))) => {
                             self.it = Some(it);
+                            self.root_device = if self.same_file_system {
+                                device_num(&path).ok()
+                            } else {
+                                None
+                            };
                             if path.is_dir() {
                                 let (ig, err) = self.ig_root.add_parents(path);
                                 self.ig = ig;
@@ -1012,7 +1037,12 @@ impl Iterator for Walk {
                         Ok(should_skip) => should_skip,
                     };
                     if should_skip {
-                        self.it.as_mut().unwrap().it.skip_current_dir();
+                        // Only skip the directory if walkdir descended into
+                        // it. Otherwise, this would instead skip the rest of
+                        // the parent directory.
+                        if self.is_descended(&ent) {
+                            self.it.as_mut().unwrap().it.skip_current_dir();
+                        }
                         // Still need to push this on the stack because
                         // we'll get a WalkEvent::Exit event for this dir.
                         // We don't care if it errors though.
